@@ -187,7 +187,7 @@ pub const C01: Spec = Spec {
   transform: identity,
   judge: c01_judge,
   opts: Opts::default,
-  quick: (8, 15000),
+  quick: (16, 15000),
   thorough: (16, 250000),
   extra: None,
   strategy: None,
@@ -262,7 +262,7 @@ pub const C02: Spec = Spec {
   transform: probe_same_roots,
   judge: c02_judge,
   opts: Opts::default,
-  quick: (8, 15000),
+  quick: (16, 15000),
   thorough: (16, 250000),
   extra: None,
   strategy: None,
@@ -335,7 +335,7 @@ pub const C03: Spec = Spec {
   transform: probe_all_after_bottom_up,
   judge: c03_judge,
   opts: Opts::default,
-  quick: (8, 15000),
+  quick: (16, 15000),
   thorough: (16, 250000),
   extra: None,
   strategy: None,
@@ -376,7 +376,7 @@ pub const C04: Spec = Spec {
   transform: identity,
   judge: c04_judge,
   opts: Opts::default,
-  quick: (8, 15000),
+  quick: (16, 15000),
   thorough: (16, 250000),
   extra: None,
   strategy: None,
@@ -417,7 +417,7 @@ pub const C09: Spec = Spec {
   transform: identity,
   judge: c09_judge,
   opts: Opts::default,
-  quick: (8, 15000),
+  quick: (16, 15000),
   thorough: (16, 250000),
   extra: None,
   strategy: None,
@@ -487,7 +487,7 @@ fn c17_cfg(t: Tier) -> GenCfg {
 }
 
 fn c17_extra(_spec: &Spec, tier: Tier, seed: u64, known: &Known, report: &mut Report) {
-  let (shards, cases, max) = match tier { Tier::Quick => (8, 6000, 40), Tier::Thorough => (16, 60000, 80) };
+  let (shards, cases, max) = match tier { Tier::Quick => (16, 6000, 40), Tier::Thorough => (16, 60000, 80) };
   let scfg = SearchCfg { prop: "C17", label: "api", seed, shards, cases_per_shard: cases, max_shrink_iters: 3000 };
   let (stats, found) = driver::search(&scfg, known, || super::trackerapi::strategy(max), |c, s| super::trackerapi::check(c, s), |c| format!("{:?}", c));
   report.absorb("api", stats, found);
@@ -501,7 +501,7 @@ pub const C17: Spec = Spec {
   transform: split_sessions,
   judge: c17_judge,
   opts: composite_opts,
-  quick: (8, 8000),
+  quick: (16, 8000),
   thorough: (16, 150000),
   extra: Some(c17_extra),
   strategy: None,
@@ -623,7 +623,7 @@ pub const C18: Spec = Spec {
   transform: identity,
   judge: c18_judge,
   opts: Opts::default,
-  quick: (8, 15000),
+  quick: (16, 15000),
   thorough: (16, 250000),
   extra: Some(c18_extra),
   strategy: None,
@@ -852,7 +852,7 @@ fn c19_extra(spec: &Spec, tier: Tier, seed: u64, known: &Known, report: &mut Rep
   report.extra.insert("crash_points_enumerated".into(), json!(points));
   report.extra.insert("cases_with_all_crash_points".into(), json!(cases_enumerated));
   // Aborts caused by diagnosed violations that exist only in some states (cause removed or not afterwards).
-  let (shards, cases) = match tier { Tier::Quick => (8, 8000), Tier::Thorough => (16, 120000) };
+  let (shards, cases) = match tier { Tier::Quick => (16, 8000), Tier::Thorough => (16, 120000) };
   let dcfg = super::diag::diag_cfg(tier);
   let scfg = SearchCfg { prop: "C19", label: "diag", seed, shards, cases_per_shard: cases, max_shrink_iters: 3000 };
   let (stats, found) = driver::search(&scfg, known, || super::diag::strategy(dcfg.clone()), |c, s| super::diag::check(c, super::diag::Mode::C19, s), |c| pretty_case(c));
@@ -867,7 +867,7 @@ pub const C19: Spec = Spec {
   transform: identity,
   judge: c19_judge,
   opts: Opts::default,
-  quick: (8, 15000),
+  quick: (16, 15000),
   thorough: (16, 250000),
   extra: Some(c19_extra),
   strategy: None,
@@ -995,7 +995,7 @@ fn c08_diag_check(case: &Case, stats: &mut Stats) -> CheckResult {
 }
 
 fn c08_extra(_spec: &Spec, tier: Tier, seed: u64, known: &Known, report: &mut Report) {
-  let (shards, cases) = match tier { Tier::Quick => (8, 6000), Tier::Thorough => (16, 100000) };
+  let (shards, cases) = match tier { Tier::Quick => (16, 6000), Tier::Thorough => (16, 100000) };
   let dcfg = super::diag::diag_cfg(tier);
   let scfg = SearchCfg { prop: "C08", label: "diag", seed, shards, cases_per_shard: cases, max_shrink_iters: 3000 };
   let (stats, found) = driver::search(&scfg, known, || super::diag::strategy(dcfg.clone()), |c, s| c08_diag_check(c, s), |c| pretty_case(c));
@@ -1010,7 +1010,7 @@ pub const C08: Spec = Spec {
   transform: identity,
   judge: c08_judge,
   opts: dump_opts,
-  quick: (8, 15000),
+  quick: (16, 15000),
   thorough: (16, 250000),
   extra: Some(c08_extra),
   strategy: None,
